@@ -74,9 +74,9 @@ proof fn lemma_row_bounds(row: Seq<(BlockHash, u32)>, target: BlockHash, n: int)
 //@| proof { lemma_row_bounds(row_view(blocks_with_depths_on_the_same_height@), *target_block, blocks_with_depths_on_the_same_height@.len() as int); }
 //@end
 
-// [trusted:stand-in] AddressUtxoSet (address_utxoset.rs): only the sequence of blocks applied so far is tracked
-struct AddressUtxoSet { applied: Ghost<Seq<BlockHash>>, opaque: u64 }
-impl AddressUtxoSet {
+// [trusted:stand-in] AddressUtxoSet as seen by the walk: only the sequence of blocks applied so far is tracked (apply_block itself is verified below)
+struct AddressUtxoSetLog { applied: Ghost<Seq<BlockHash>>, opaque: u64 }
+impl AddressUtxoSetLog {
     // [trusted:assumed-contract] AddressUtxoSet::apply_block records the block's per-address delta (entry-API OutPointsCache + BTreeSets)
     #[verifier::external_body]
     fn apply_block(&mut self, block_hash: &BlockHash)
@@ -133,7 +133,7 @@ proof fn lemma_cut_stuck(rows: Seq<Seq<(BlockHash, u32)>>, chain: Seq<CachedBloc
 //@slice file=canister/src/api/get_utxos.rs item="fn get_utxos_from_chain" from_after="let mut address_utxos = state.get_utxos(address);" to_before="stats.ins_apply_unstable_blocks = performance_counter() - ins_start;" props=C04,C02
 //@ rewrite R4 "for \(i, block\) in chain\.into_chain\(\)\.iter\(\)\.enumerate\(\) \{" => "let vp_chain = chain.into_chain(); let mut vp_n: usize = 0; for block in it: vp_chain.iter() { let i = vp_n; vp_n = vp_n + 1; proof { lemma_walk_step(state, blocks_with_depths_by_heights@, vp_rows, vp_chain@, vp_chain_view, i as int); }"
 //@ head
-//@| fn get_utxos_walk<'a>(state: &'a State, chain: BlockChain<'a, CachedBlock>, min_confirmations: u32, address_utxos: &mut AddressUtxoSet) -> (r: (&'a BlockHash, u32))
+//@| fn get_utxos_walk<'a>(state: &'a State, chain: BlockChain<'a, CachedBlock>, min_confirmations: u32, address_utxos: &mut AddressUtxoSetLog) -> (r: (&'a BlockHash, u32))
 //@|     requires
 //@|         state_ranges(state),
 //@|         1 <= chain@.len() <= state.unstable_blocks.tree.sdepth(),
@@ -251,13 +251,16 @@ proof fn lemma_unfiltered_walk_serves_the_tip(rows: Seq<Seq<(BlockHash, u32)>>, 
 
 // ---- C05: the walk of get_balance (get_balance.rs) -------------------------------------------------------------------
 // [trusted:stand-in] Address / OutPoint / TxOut as far as the balance walk reads them
+#[derive(PartialEq, Eq, PartialOrd, Ord, Clone, Copy, Structural)]
 struct Address { id: u64 }
+#[derive(PartialEq, Eq, PartialOrd, Ord, Clone, Copy, Structural)]
 struct OutPoint { id: u64 }
 struct TxOut { value: u64 }
 // per-block, per-address outpoints of unstable blocks and the cached tx outs (OutPointsCache, entry-API maps): uninterpreted
 uninterp spec fn added_spec(ub: &UnstableBlocks, h: BlockHash, a: Address) -> Seq<OutPoint>;
 uninterp spec fn removed_spec(ub: &UnstableBlocks, h: BlockHash, a: Address) -> Seq<OutPoint>;
 uninterp spec fn value_spec(ub: &UnstableBlocks, o: OutPoint) -> u64;
+uninterp spec fn height_spec(ub: &UnstableBlocks, o: OutPoint) -> Height;
 impl UnstableBlocks {
     // [trusted:assumed-contract] get_added_outpoints / get_removed_outpoints / get_tx_out (unstable_blocks.rs:139-153): the cache
     // returns the block's outpoints for the address, and every such outpoint has a cached tx out (C20 territory, not verified)
@@ -271,7 +274,7 @@ impl UnstableBlocks {
     { unimplemented!() }
     #[verifier::external_body]
     fn get_tx_out(&self, outpoint: &OutPoint) -> (r: Option<(&TxOut, Height)>)
-        ensures r.is_some(), r.unwrap().0.value == value_spec(self, *outpoint),
+        ensures r.is_some(), r.unwrap().0.value == value_spec(self, *outpoint), r.unwrap().1 == height_spec(self, *outpoint),
     { unimplemented!() }
 }
 spec fn sum_values(ub: &UnstableBlocks, s: Seq<OutPoint>, n: int) -> int
@@ -402,3 +405,79 @@ spec fn balances_in_range(ub: &UnstableBlocks, a: Address, chain: Seq<CachedBloc
 //@ tail
 //@| Ok(())
 //@end
+
+
+// ---- C01: AddressUtxoSet::apply_block (address_utxoset.rs:47) on the real body --------------------------------------------
+// [trusted:stand-in] types::Utxo as an ordered key (its real order is checked by Kani: c01_utxo_cmp_order); Satoshi = u64
+#[derive(PartialEq, Eq, PartialOrd, Ord, Clone, Copy, Structural)]
+struct Utxo { height: u32, outpoint: OutPoint, value: u64 }
+//@extract file=canister/src/address_utxoset.rs item="struct AddressUtxoSet"
+//@end
+// [trusted:axioms] the derived / hand-written Ord of OutPoint and Utxo are lawful total orders (what BTreeSet's specification asks of a key type)
+#[verifier::external_body]
+proof fn axiom_keys_obey_cmp_spec()
+    ensures vstd::laws_cmp::obeys_cmp_spec::<OutPoint>(), vstd::laws_cmp::obeys_cmp_spec::<Utxo>(),
+{}
+// the UTXOs a block adds for an address: (outpoint, cached value, cached height)
+spec fn added_utxo_at(ub: &UnstableBlocks, s: Seq<OutPoint>, i: int) -> Utxo {
+    Utxo { outpoint: s[i], value: value_spec(ub, s[i]), height: height_spec(ub, s[i]) }
+}
+impl<'a> AddressUtxoSet<'a> {
+//@extract file=canister/src/address_utxoset.rs in="impl<'a> AddressUtxoSet<'a>" item="fn apply_block" props=C01
+//@ rewrite R10 "\.unwrap_or_else\(\|\| \{\s*vp_trap\(\);\s*\}\)" => ".unwrap()"
+//@ spec
+//@| ensures
+//@|     // exactly the block's removed outpoints are added to the removed set ...
+//@|     forall|o: OutPoint| final(self).removed_outpoints@.contains(o) <==>
+//@|         (old(self).removed_outpoints@.contains(o) || removed_spec(old(self).unstable_blocks, *block_hash, old(self).address).contains(o)),
+//@|     // ... and exactly its added outpoints, with their cached value and height, to the added set
+//@|     forall|u: Utxo| final(self).added_utxos@.contains(u) <==>
+//@|         (old(self).added_utxos@.contains(u) || exists|i: int| 0 <= i < added_spec(old(self).unstable_blocks, *block_hash, old(self).address).len()
+//@|             && u == added_utxo_at(old(self).unstable_blocks, added_spec(old(self).unstable_blocks, *block_hash, old(self).address), i)),
+//@|     final(self).address == old(self).address && final(self).unstable_blocks == old(self).unstable_blocks,
+//@ after "self.removed_outpoints.insert(outpoint.clone());"
+//@| proof {
+//@|     axiom_keys_obey_cmp_spec();
+//@|     let sq = removed_spec(old(self).unstable_blocks, *block_hash, old(self).address);
+//@|     let k = itr.index@;
+//@|     assert(*outpoint == sq[k]);
+//@|     assert forall|o: OutPoint| self.removed_outpoints@.contains(o) <==>
+//@|         (old(self).removed_outpoints@.contains(o) || exists|i: int| 0 <= i < k + 1 && sq[i] == o) by {
+//@|         if o == sq[k] { assert(0 <= k < k + 1 && sq[k] == o); }
+//@|         if exists|i: int| 0 <= i < k + 1 && sq[i] == o {
+//@|             let i = choose|i: int| 0 <= i < k + 1 && sq[i] == o;
+//@|             if i < k { assert(0 <= i < k && sq[i] == o); }
+//@|         }
+//@|     }
+//@| }
+//@ after "self.added_utxos.insert(Utxo {"
+//@| proof {
+//@|     axiom_keys_obey_cmp_spec();
+//@|     let sq = added_spec(old(self).unstable_blocks, *block_hash, old(self).address);
+//@|     let k = ita.index@;
+//@|     assert(*outpoint == sq[k]);
+//@|     let nu = added_utxo_at(old(self).unstable_blocks, sq, k);
+//@|     assert forall|u: Utxo| self.added_utxos@.contains(u) <==>
+//@|         (old(self).added_utxos@.contains(u) || exists|i: int| 0 <= i < k + 1 && u == added_utxo_at(old(self).unstable_blocks, sq, i)) by {
+//@|         if u == nu { assert(0 <= k < k + 1 && u == added_utxo_at(old(self).unstable_blocks, sq, k)); }
+//@|         if exists|i: int| 0 <= i < k + 1 && u == added_utxo_at(old(self).unstable_blocks, sq, i) {
+//@|             let i = choose|i: int| 0 <= i < k + 1 && u == added_utxo_at(old(self).unstable_blocks, sq, i);
+//@|             if i < k { assert(0 <= i < k && u == added_utxo_at(old(self).unstable_blocks, sq, i)); }
+//@|         }
+//@|     }
+//@| }
+//@ loop 1 binder=itr
+//@| invariant
+//@|     self.address == old(self).address && self.unstable_blocks == old(self).unstable_blocks && self.added_utxos@ == old(self).added_utxos@,
+//@|     forall|o: OutPoint| self.removed_outpoints@.contains(o) <==>
+//@|         (old(self).removed_outpoints@.contains(o) || exists|i: int| 0 <= i < itr.index@ && removed_spec(old(self).unstable_blocks, *block_hash, old(self).address)[i] == o),
+//@ loop 2 binder=ita
+//@| invariant
+//@|     self.address == old(self).address && self.unstable_blocks == old(self).unstable_blocks,
+//@|     forall|o: OutPoint| self.removed_outpoints@.contains(o) <==>
+//@|         (old(self).removed_outpoints@.contains(o) || removed_spec(old(self).unstable_blocks, *block_hash, old(self).address).contains(o)),
+//@|     forall|u: Utxo| self.added_utxos@.contains(u) <==>
+//@|         (old(self).added_utxos@.contains(u) || exists|i: int| 0 <= i < ita.index@
+//@|             && u == added_utxo_at(old(self).unstable_blocks, added_spec(old(self).unstable_blocks, *block_hash, old(self).address), i)),
+//@end
+}
